@@ -84,9 +84,9 @@ def relevant_axioms(axioms, formulas):
     info = []
     for ax in axioms:
         k = ax.get_id()
-        if k not in _AX_CACHE:
-            _AX_CACHE[k] = (_pattern_sets(ax), _decl_names(ax, set()))
-        info.append((ax,) + _AX_CACHE[k])
+        if k not in _AX_CACHE or not _AX_CACHE[k][0].eq(ax):
+            _AX_CACHE[k] = (ax, _pattern_sets(ax), _decl_names(ax, set()))      # holds `ax`: its id cannot be reused
+        info.append((ax,) + _AX_CACHE[k][1:])
     chosen = {}
     changed = True
     while changed:
